@@ -49,3 +49,15 @@ pub assume_specification [std::path::Path::display] (_0: &std::path::Path) -> st
 // ---- files ---------------------------------------------------------------------------------------------------------
 /// the name a File handle was created / opened on
 pub uninterp spec fn file_pid(f: std::fs::File) -> PathId;
+
+// ---- field types of the (transparent) error enums: opaque ------------------------------------------------------------
+#[verifier::external_type_specification] #[verifier::external_body]
+pub struct ExFromHexError(hex::FromHexError);
+#[verifier::external_type_specification] #[verifier::external_body]
+pub struct ExInvalidUri(http::uri::InvalidUri);
+#[verifier::external_type_specification] #[verifier::external_body]
+pub struct ExStatusCode(http::StatusCode);
+#[verifier::external_type_specification] #[verifier::external_body]
+pub struct ExRecvError(tokio::sync::oneshot::error::RecvError);
+#[verifier::external_type_specification] #[verifier::external_body]
+pub struct ExHyperError(hyper::Error);
